@@ -64,6 +64,25 @@ def run(chk):
                  "GBox<GItem> bx = new GBox<GItem>(new GItem()); echo(bx.w()); GMid<string> ms = new GMid<string>(); echo(ms.gm + ms.gb); }"]
         ps = perms(rng, len(decls), 4)
         cases.append((["\n".join(decls)] + ["\n".join(decls[i] for i in p) for p in ps], ps, [], False))
+    # statics whose initialisers read other classes' statics (in either direction, also cyclically) or call a counting function:
+    # values and the order of side effects must not depend on where the classes stand in the file
+    for _ in range(1200 if chk.thorough else 40):
+        k = rng.randrange(2, 6)
+        names = rng.sample(["A", "B", "C", "D", "Early", "Late", "Mid", "Zeta", "Q1", "Util", "Cfg", "M"], k)
+        decls = ["static class Tick { public static int n = 0; public static function next() -> int { n = n + 1; return n; } }"]
+        for i, nm in enumerate(names):
+            others = [x for x in names if x != nm]
+            terms = [str(rng.randrange(1, 9))]
+            for o in rng.sample(others, rng.randrange(0, min(3, len(others)) + 1)):
+                terms.append("%s.v" % o)
+            if rng.random() < 0.4:
+                terms.append("Tick.next() * 100")
+            stat = rng.random() < 0.5
+            decls.append("%sclass %s { public static int v = %s; public static int w = v * 2;%s }"
+                         % ("static " if stat else "", nm, " + ".join(terms), "" if stat else " public constructor() -> %s = default;" % nm))
+        decls.append("function main() -> void { %s echo(Tick.n); }" % " ".join("echo(%s.v); echo(%s.w);" % (nm, nm) for nm in names))
+        ps = perms(rng, len(decls), 4)
+        cases.append((["\n".join(decls)] + ["\n".join(decls[i] for i in p) for p in ps], ps, [], False))
     for _fn, o in load_corpus("C10"):
         cases.append(([o["source"]] + o["variants"], ["corpus"] * len(o["variants"]), o.get("draws", []), False))
     progs, owner = [], []
